@@ -285,6 +285,16 @@ func makeOptions(opts []Option) *options {
 	return &o
 }
 
+// enterReference opens a new scope in the set of references under evaluation
+// and returns the function closing it. A reference is active only while it is
+// being resolved and its value evaluated, so using the same variable twice in
+// one setting, or reaching it along two paths, is not mistaken for a cycle.
+func (o *options) enterReference() func() {
+	parent := o.activeFields
+	o.activeFields = newFieldSet(parent)
+	return func() { o.activeFields = parent }
+}
+
 func (cache valueCache) cachedValue(
 	id cacheID,
 	f func() (value, error),
